@@ -171,7 +171,7 @@ claim("C19", "E6",
       "unguarded narrowing is a violation. Boundary values and the two build profiles are exactly what tests do not sample: the suite runs "
       "unoptimised, where a wrapped value panics, while the shipped profile wraps silently. The 30 listed KNOWN findings are the unguarded "
       "saturating conversions of source-provided values (the reproduced advance 70000 -> 65535 family); the PaintColrLayers u8 wrap was repaired. "
-      "(CACHE) the guard that sends composites with out-of-range 2x2 transforms to the decomposition fallback reads summaries cached in ir::Glyph: every function that edits "
+      "(W-order) the only restructuring of the glyph-order job that keeps components (GlyphOp::MoveContoursToComponent) is chosen only after has_overflowing_component_transforms was tested (dominance; seeded); (CACHE) the guard that sends composites with out-of-range 2x2 transforms to the decomposition fallback reads summaries cached in ir::Glyph: every function that edits "
       "instances through Glyph::sources_mut() and composes transforms rebuilds the glyph through Glyph::new (found: flatten_glyph clamped 2.25x to 1.99994; repaired), every other "
       "caller is audited. "
       "NOT decided: conversions inside external crates (glyf coordinate rounding in write-fonts), shape preservation of fallbacks.",
